@@ -14,6 +14,7 @@ transition system at critical-section granularity over the ownership heap.
   is freed iff ReleasePayload; a ping makes the default handler send a pong = `send`).
 
 What the bytes decide (frame boundaries, opcodes, validity) is the environment answer `FrameInfo`.
+With a queued executor (`rxQueue`, `jobRun`) the payload is handed over to the job instead of being handled inside Parse.
 Actions that are not enabled in a state are no-ops, so EVERY list of actions is an interleaving of the
 reader, the writers, the sender goroutine and the closer that the Go code allows or a prefix of one. -/
 namespace OwnW
@@ -38,6 +39,8 @@ structure S where
   inflight : Option Nat := none            -- the sender goroutine's pbuf
   phase : DPhase := .idle
   held : List Nat := []                    -- payloads in Parse's local variables, in handler order
+  jobs : List Nat := []                    -- payloads handed over to handler jobs the executor has queued (FIFO):
+                                           --     the job owns its payload until it has run
   closed : Bool := false
   heap : Heap := {}
 
@@ -197,9 +200,28 @@ def rxHandle (g : Cfg) (s : S) (isPing : Bool) (pongFrame : Nat × Bool) : S :=
     let h := s.heap.touch id none
     { s with held := rest, heap := if g.rp then h.free id else h }
 
+/-- handleMessage / handleDataFrame on a conn served by a poller: `c.Execute` only QUEUES the job; the oldest payload
+in a local variable is handed over to the job (ownership transfer: nothing is freed now, whatever ReleasePayload says) -/
+def rxQueue (s : S) : S :=
+  match s.held with
+  | [] => s
+  | id :: rest => { s with held := rest, jobs := s.jobs ++ [id] }
+
+/-- the executor runs the oldest queued job, at any later time (after Parse returned, after further Parse calls, after
+CloseAndClean): the handler reads the payload (a ping: the default handler sends the pong), then the job frees it iff
+ReleasePayload -/
+def jobRun (g : Cfg) (s : S) (isPing : Bool) (pongFrame : Nat × Bool) : S :=
+  match s.jobs with
+  | [] => s
+  | id :: rest =>
+    let s := if isPing then send g s true [pongFrame] else s
+    let h := s.heap.touch id none
+    { s with jobs := rest, heap := if g.rp then h.free id else h }
+
 inductive Act
   | send (ctl : Bool) (frames : List (Nat × Bool)) | dStart | dEnd (ok : Bool) | dFree | dAdvance | close
   | rxAppend (n : Nat) | rxFrame (f : FrameInfo) | rxHandle (isPing : Bool) (pong : Nat × Bool)
+  | rxQueue | jobRun (isPing : Bool) (pong : Nat × Bool)
 
 def step (g : Cfg) (s : S) : Act → S
   | .send ctl fr => send g s ctl fr
@@ -211,6 +233,8 @@ def step (g : Cfg) (s : S) : Act → S
   | .rxAppend n => rxAppend s n
   | .rxFrame f => rxFrame g s f
   | .rxHandle p pf => rxHandle g s p pf
+  | .rxQueue => rxQueue s
+  | .jobRun p pf => jobRun g s p pf
 
 def run (g : Cfg) (s : S) (acts : List Act) : S := acts.foldl (step g) s
 
